@@ -352,6 +352,18 @@ def _p_rich_xy(c):
         _ = r.x if c.get('first', 'x') == 'x' else r.y
         m, n = c['shape2']
         r.data = _marked((m, n))
+    elif hist == 'replace_other_after_polar_read':
+        _ = r.r                                     # fills x, y, r, t
+        m, n = c['shape2']
+        r.data = _marked((m, n))
+        rr = np.asarray(r.r)
+        if rr.shape != (m, n) or rr[m // 2, n // 2] != 0:
+            return f'r has shape {rr.shape} beside data of shape {(m, n)} / is not zero on the origin sample'
+    elif hist == 'assign_then_replace_other':
+        # user-assigned coordinates describe the array they were assigned beside; data of another shape gets fresh ones
+        r.x, r.y = np.meshgrid(np.arange(n) * 1.0, np.arange(m) * 1.0)
+        m, n = c['shape2']
+        r.data = _marked((m, n))
     x, y = (r.x, r.y) if c.get('first', 'x') == 'x' else tuple(reversed((r.y, r.x)))
     dx = c['dx']
     if x.shape != (m, n) or y.shape != (m, n):
@@ -563,6 +575,14 @@ def _p_estsize(c):
     b = fn(f, x=xv, y=yv, criteria=c.get('criteria', 'last'))
     if not (abs(a - b) <= 1e-9 * max(abs(b), dx)):
         return f'{c["metric"]} with dx only = {a}, on the make_xy_grid vectors = {b}'
+    if c.get('criteria', 'last') == 'last':
+        # returned size = 2 x (radius one rho step past the last polar sample above the level, averaged over the azimuth); rho has
+        # len(x) samples from 0 to max(m//2, n//2) dx.  For the Gaussian the analytic full width is 2 k s: the answer lies on the
+        # rho lattice, so within one step of the radius (two of the width) plus the linear-interpolation error (measured < 2.01 steps)
+        want = 2 * {'fwhm': np.sqrt(2 * np.log(2)), '1/e': np.sqrt(2), '1/e^2': 2.0}[c['metric']] * s
+        dr = max(m // 2, n // 2) * dx / (n - 1)
+        if not abs(a - want) <= 2.5 * dr:
+            return f'{c["metric"]} = {a} for a Gaussian centred on the origin sample whose analytic width is {want} (rho step {dr})'
     return None
 
 
@@ -704,8 +724,8 @@ def _p_centroid_pad(c):
 @pred('slices_az')
 def _p_slices_az(c):
     """azimuthal statistics of Slices resample the data about the coordinate zero: for the linear map z = x + 2 y (exact under
-    linear interpolation) the average / maximum over the azimuth at radius rho is rho * mean / max of (cos + 2 sin), for every
-    radius inside the array"""
+    linear interpolation) every statistic over the azimuth at radius rho (mean, median, min, max, pv, var, std) is rho (rho^2 for
+    the variance) times the same statistic of (cos + 2 sin), for every radius inside the array"""
     co = _impl()[1]
     m, n = c['shape']
     dx = c['dx']
@@ -713,15 +733,21 @@ def _p_slices_az(c):
     r = _impl()[4].RichData(1 * x + 2 * y, dx, 1.0)
     s = r.slices()
     rho, avg = s.azavg
-    _, mx = s.azmax
     phi = np.linspace(0, 2 * np.pi, m)
     xv, yv = x[0], y[:, 0]
     rin = min(abs(xv.min()), abs(xv.max()), abs(yv.min()), abs(yv.max()))
     k = rho <= rin * (1 - 1e-12)
     w = np.cos(phi) + 2 * np.sin(phi)
     tol = 1e-9 * max(rin, abs(dx))
-    if len(rho) != n or np.abs(avg - rho * w.mean())[k].max() > tol or np.abs(mx - rho * w.max())[k].max() > tol:
-        return 'azimuthal average / maximum of z = x + 2 y is not rho * mean / max (cos + 2 sin) about the origin sample'
+    if len(rho) != n:
+        return f'{len(rho)} radial coordinates for {n} columns'
+    # every statistic over the azimuth of rho * w(phi) is rho (or rho^2) times the statistic of w, for rho >= 0
+    stats = (('azavg', w.mean(), 1), ('azmedian', np.median(w), 1), ('azmin', w.min(), 1), ('azmax', w.max(), 1),
+             ('azpv', w.max() - w.min(), 1), ('azvar', w.var(), 2), ('azstd', w.std(), 1))
+    for nm, val, pw in stats:
+        rr, got = getattr(s, nm)
+        if len(got) != len(rho) or np.abs(got - rho ** pw * val)[k].max() > tol * max(1.0, rin) ** (pw - 1):
+            return f'{nm} of z = x + 2 y is not rho^{pw} x the same statistic of (cos + 2 sin) about the origin sample'
     return None
 
 
@@ -843,22 +869,9 @@ def origin_inventory(repo):
     return sorted(sites)
 
 
-# ---- known finding: stale RichData coordinates after .data was replaced by another shape ------------------------------
-def _stale_witness():
-    C.import_prysm()
-    c = {'shape': [4, 7], 'shape2': [6, 9], 'dx': 0.5, 'history': 'replace_other_after_read'}
-    try:
-        return _p_rich_xy(c) is not None
-    except Exception:
-        return True
+# ---- former known finding richdata-stale-xy: repaired in /repo (see KNOWN_FINDINGS.txt `fixed:`); nothing is filtered: the history
+# "read x, replace .data by another shape, read x / y / slices()" is an ordinary checked case, so a regression is a VIOLATION.
 
-
-KNOWN = {'richdata-stale-xy': {'witness': _stale_witness}}
-
-
-def _is_known(item, c):
-    return item in ('richdata_xy', 'slices') and c.get('history') == 'replace_other_after_read' \
-        and list(c.get('shape2', c['shape'])) != list(c['shape'])
 
 
 # =================================================================================================
@@ -872,13 +885,6 @@ def _run_pred(ctx, item, case, nontrivial=True, tag=None):
     except Exception as ex:
         detail = f'raised {type(ex).__name__}: {ex}'
     if detail is not None:
-        if _is_known(item, case):
-            # exactly the known finding: the same request on a FRESH object of the new shape holds, only the cache is stale
-            fresh = {k: v for k, v in case.items() if k not in ('history', 'shape2')}
-            fresh['shape'] = case['shape2']
-            if _try(item, fresh) is None:
-                ctx.filtered_known['richdata-stale-xy'] += 1
-                return False
         ctx.pred_fail(item, case, detail)
         return False
     return True
@@ -1059,7 +1065,8 @@ def correspondence(ctx):
         for first in ('x', 'y'):
             _run_pred(ctx, 'richdata_xy', {'shape': [m, n], 'dx': dx, 'first': first}, nontrivial=nt, tag=f'par{m % 2}{n % 2}')
         other_shape = [n + 1, m + 2]
-        for hist in ('replace_same_after_read', 'replace_other_before_read', 'replace_other_after_read'):
+        for hist in ('replace_same_after_read', 'replace_other_before_read', 'replace_other_after_read',
+                     'replace_other_after_polar_read', 'assign_then_replace_other'):
             _run_pred(ctx, 'richdata_xy', {'shape': [m, n], 'dx': dx, 'history': hist, 'shape2': other_shape,
                                            'first': 'xy'[(m + n) % 2]}, nontrivial=nt, tag=hist)
         for two in (True, False, None):
@@ -1142,7 +1149,7 @@ def _session3_lines(ctx, pairs, ns, shapes, rat):
             lines += [f'shifts {n}', f'fftfreq {n}']
     for (m, n) in shapes:
         dx = DXS[(m + n) % len(DXS)]
-        lines += [f'slices {m} {n} {rat(dx)}', f'support {m} {n} {rat(dx)}', f'dxdiam 3/1 {m} {n}']
+        lines += [f'slices {m} {n} {rat(dx)}', f'support {m} {n} {rat(dx)}', f'dxdiam 3/1 {m} {n}', f'polar {m} {n}']
         lines += [f'vec {m} {n} {k} {rat(dx)}' for k in {0, min(m, n) // 2, min(m, n) - 1}]
     for c in range(0, ctx.scale(14, 22)):
         lines += [f'autocrop {c} {px}' for px in range(1, 9)]
@@ -1234,6 +1241,20 @@ def _session3(ctx, M, pairs, ns, shapes, rat):
                 ctx.disagree('vec_sample', {'shape': [m, n], 'dx': dx, 'k': k}, [float(xv[k]), float(yv[k])], [vx, vy])
         if m >= 3 and n >= 3 and dx > 0:
             _run_pred(ctx, 'slices_az', {'shape': [m, n], 'dx': dx}, nontrivial=True, tag=f'par{m % 2}{n % 2}')
+        if m >= 2 and n >= 2:
+            # shape of the real polar array and number of rho coordinates against the model's axis layout
+            want = list(map(int, M[f'polar {m} {n}'].split()))
+            ctx.case('polar_layout', {'shape': [m, n]}, nontrivial=m != n)
+            try:
+                xv_, yv_ = co.make_xy_grid((m, n), dx=abs(dx), grid=False)
+                rho_, phi_, pol_ = co.uniform_cart_to_polar(xv_, yv_, _marked((m, n)))
+                got = [pol_.shape[0], pol_.shape[1], len(rho_)]
+                if rho_[0] != 0:
+                    got.append('rho[0] != 0')
+            except Exception as ex:
+                got = f'raised {type(ex).__name__}: {ex}'
+            if got != want:
+                ctx.disagree('polar_layout', {'shape': [m, n]}, got, want)
         for what in ('r', 'support', 'exact'):
             for hist in ('fresh', 'copy_after_read', 'copy_before_read'):
                 if what == 'exact' and (m < 2 or n < 2):
@@ -1435,6 +1456,8 @@ def search(ctx, hints):
                     return hit(item, case, d)
     for (m, n) in itertools.product(range(1, 10), repeat=2):
         cases = [('richdata_xy', {'shape': [m, n], 'dx': 1.0, 'first': 'x'}), ('richdata_xy', {'shape': [m, n], 'dx': 1.0, 'first': 'y'}),
+                 ('richdata_xy', {'shape': [m, n], 'dx': 1.0, 'history': 'replace_other_after_read', 'shape2': [n + 1, m + 2]}),
+                 ('slices', {'shape': [m, n], 'dx': 1.0, 'history': 'replace_other_after_read', 'shape2': [n + 1, m + 2]}),
                  ('slices', {'shape': [m, n], 'dx': 1.0, 'twosided': True}), ('slices', {'shape': [m, n], 'dx': 1.0, 'twosided': False}),
                  ('focus_origin', {'shape': [m, n]}), ('focus_origin', {'shape': [m, n], 'Q': '2'}), ('focus_origin', {'shape': [m, n], 'Q': '3/2'}),
                  ('centroid', {'shape': [m, n], 'pos': [m // 2, n // 2], 'dx': 1.0}),
@@ -1538,7 +1561,10 @@ MANIFEST_ENTRY = {
              '(13) three-valued AST facts: RichData.r / .t are the first / second result of cart_to_polar(x=self.x, y=self.y); the '
              'polar cache of Slices is uniform_cart_to_polar(x=self._x, y=self._y, data=self._source); exact_x / exact_y '
              'interpolate the (coordinates, values) pair of the x / y slice; exact_xy builds and queries its interpolator in '
-             '(y, x) = (row, column) order; for user-assigned coordinates (k - c0) dx the slice centre is c0. '
+             '(y, x) = (row, column) order; for user-assigned coordinates (k - c0) dx the slice centre is c0; '
+             '(14) polar resampling glue (translated from uniform_cart_to_polar, the seven Slices.az* statistics and '
+             'estimate_size): rho runs along one array axis with len(x) samples, phi along the other with len(y); every az* '
+             'statistic reduces over the phi axis and estimate_size searches / measures / reverses along the rho axis. '
              'COMPARED ONLY (bounded enumeration on the real functions, integer-exact where integers are involved): NumPy plumbing '
              '(slicing, 12 np.pad modes and fill values, meshgrid, roll, argmin and center_of_mass in floating point) for all (n, N) '
              'up to 40 (quick) / 128 (thorough); integer / list / tuple out_shape, Q = 1 with out_shape, int64 / float32 / '
@@ -1563,7 +1589,8 @@ MANIFEST_ENTRY = {
     'note': ('Trusted: Lean kernel + propext/Classical.choice/Quot.sound; the ast->Lean translator (tools/gen_c04.py: its reading '
              'of comprehensions, tuple unpacking, np.meshgrid(xy) and subscript forms is validated by executing model vs code on '
              'the exhaustive small domain each run); NumPy slicing / np.pad / np.roll / np.argmin and scipy.ndimage.center_of_mass '
-             'semantics; dx scaling is one floating-point product per sample (compared at 4 eps). Known finding '
-             'richdata-stale-xy: RichData caches x / y at first read and keeps them when .data is later replaced by an array of '
-             'another shape (filtered exactly; not repaired because Interferogram.crop reads the stale grid on purpose).'),
+             'semantics; dx scaling is one floating-point product per sample (compared at 4 eps). The former known finding '
+             'richdata-stale-xy is repaired (RichData.data is a property whose setter drops x / y / r / t cached for another '
+             'shape; Interferogram.crop cuts its grids before replacing the data) and is now an ordinary checked history: '
+             'read x, replace .data by another shape, read x / y / slices().'),
 }
